@@ -230,7 +230,7 @@ var verifVP9Key2 = []byte{
 }
 
 // two AV1 sequence header OBUs
-var verifAV1Seq = []byte{8, 0, 0, 0, 66, 167, 191, 228, 96, 13, 0, 64}
+var verifAV1Seq = []byte{10, 11, 0, 0, 0, 66, 167, 191, 228, 96, 13, 0, 64}
 var verifAV1Seq2 = []byte{10, 11, 0, 0, 0, 66, 167, 191, 230, 46, 223, 200, 66}
 
 func verifVideoTrack() *Track {
